@@ -173,6 +173,7 @@ namespace plan
   {
     std::string name;
     int super = -1;
+    int super2 = -1;                  // a second base class (only among classes without fields or parameters)
     std::vector<std::string> rfields; // own real fields
     int ofield_class = -1;            // own object field "g" of that class (or -1)
     bool ofield_twice = false;        // a second own object field "h" of the same class
@@ -352,13 +353,17 @@ namespace plan
     }
     bool is_subclass(int c, int of) const
     {
-      while (c >= 0)
-      {
-        if (c == of)
-          return true;
-        c = classes[c].super;
-      }
-      return false;
+      if (c < 0)
+        return false;
+      if (c == of)
+        return true;
+      return is_subclass(classes[c].super, of) || is_subclass(classes[c].super2, of);
+    }
+    bool fieldless(int c) const
+    { // neither the class nor anything it extends has fields (hence its constructor takes nothing)
+      if (c < 0)
+        return true;
+      return classes[c].rfields.empty() && classes[c].ofield_class < 0 && !classes[c].is_sv && fieldless(classes[c].super) && fieldless(classes[c].super2);
     }
     int root_of(int c) const
     {
